@@ -140,7 +140,8 @@ impl Reducible for Case {
 }
 
 /// macros that always carry a 0/1 value (usable in #if / #elif expressions)
-const MACROS: [&str; 4] = ["FOO", "BAR", "BAZ", "QUX"];
+// (one name is a prefix of another one: the tables of the preprocessor are searched by name)
+const MACROS: [&str; 6] = ["FOO", "BAR", "BAZ", "QUX", "FOO_LEVEL", "BAR2"];
 /// macros defined without a value: only ever tested with #ifdef / #ifndef (an empty macro in an
 /// #if expression is not a truth assignment)
 const FLAGS: [&str; 2] = ["ZED", "WIB"];
@@ -238,7 +239,15 @@ impl<'a, 'b> Gen<'a, 'b> {
                     if live {
                         self.table.remove(&m);
                     }
-                    out.push(Item::Undef(m));
+                    out.push(Item::Undef(m.clone()));
+                    // often defined again at once, with a value of its own
+                    if MACROS.contains(&m.as_str()) && self.g.chance(1, 2) {
+                        let v = Some(self.g.chance(1, 2));
+                        if live {
+                            self.table.insert(m.clone(), v);
+                        }
+                        out.push(Item::Define(m, v));
+                    }
                 }
                 3 => {
                     // errors mostly in dead regions (a live one ends the case early)
